@@ -1,29 +1,87 @@
-"""C10 dynamic stage: crash-isolated execution of generated / mutated / raw queries x option sets."""
+"""C10 dynamic stage: crash-isolated execution of generated / mutated / raw queries x option sets, followed by a
+race-detector pass over the cases that start goroutines (unordered map accesses = fatal error on some schedule)."""
 import json, os
+
+
+def known_for(ctx, text, sql=""):
+    """A crash or a map race is a known finding iff a listed (status=known) C10 finding names call sites
+    (signature_frames) that all occur in the runtime's report, and the query has the listed feature (sql_has)."""
+    try:
+        findings = json.load(open(os.path.join(ctx["root"], "known_findings.json"))).get("findings", [])
+    except Exception:
+        findings = []
+    for k in findings:
+        if k.get("property") != "C10" or k.get("status") != "known" or not k.get("signature_frames"):
+            continue
+        if all(f in text for f in k["signature_frames"]) and all(w.lower() in sql.lower() for w in k.get("sql_has", [])):
+            return k
+    return None
 
 
 def crash_stage(ctx):
     d = os.path.join(ctx["rundir"], "crash")
     os.makedirs(d, exist_ok=True)
+    res = {"name": "crash-isolation", "ok": False, "violations": [], "known": [], "coverage": {}}
+    env = dict(ctx["goenv"])
+    rexe, rout = ctx["build_harness"](race=True)
+    if rexe is None:
+        res["detail"] = "race build of the harness failed: " + rout[-400:]
+        res["broken"] = "stage:crash-isolation race build failed: " + rout[-200:].replace("\n", " ")
+        return res
+    env["VERIF_RACE_EXE"] = rexe
     rc, out = ctx["run"]([ctx["exe"], "aux", "crash", "-tier", ctx["tier"], "-seed", str(ctx["seed"]), "-out", d],
-                         cwd=ctx["rundir"], env=ctx["goenv"], timeout=3000)
-    res = {"name": "crash-isolation", "ok": False, "violations": [], "coverage": {}}
+                         cwd=ctx["rundir"], env=env, timeout=3000)
     path = os.path.join(d, "crash.json")
     if rc != 0 or not os.path.exists(path):
         res["detail"] = "crash driver failed: " + out[-400:]
         res["broken"] = "stage:crash-isolation driver did not complete: " + out[-200:].replace("\n", " ")
         return res
     m = json.load(open(path))
+    race = m.get("race") or {}
     res["coverage"] = {"cases": m["cases"], "outcomes": m["outcomes"], "streams": m["streams"], "samples": m["samples"],
+                       "race_pass": {"cases": race.get("cases", 0), "completed": race.get("completed", 0),
+                                     "map_races": len(race.get("map_races") or []), "other_races": race.get("other_races", 0),
+                                     "rule": "cases with PARALLEL / ASYNC. / SPIN. plus the reader stream (a function that reads its arguments, under every qualifier and position) run once in a child built with -race; a report in which an access is a runtime map operation is a violation (the runtime turns overlapping accesses of that kind into a fatal error), other reports are only counted"},
                        "rule": "every case runs New+Exec in a child process (30 s per batch of 250, the first unfinished case of a dead or hung child is the culprit); classes result | error are fine, panic-escaped | process-died | timeout are violations"}
-    fails = m.get("failures") or []
-    res["ok"] = not fails
-    res["detail"] = "%d of %d cases crashed, hung or let a panic escape" % (len(fails), m["cases"])
+    fails = []
+    seen_known = {}
+    for f in m.get("failures") or []:
+        k = known_for(ctx, f.get("detail") or "", f["case"].get("sql", "")) if f["kind"] == "process-died" else None
+        if k is not None:
+            seen_known[k["id"]] = k
+        else:
+            fails.append(f)
     for f in fails[:5]:
         p = os.path.join(ctx["root"], "replays", "C10-%s-%d-crash-%d.json" % (ctx["tier"], ctx["seed"], f["case"]["id"]))
-        json.dump({"property": "C10", "kind": f["kind"], "case": f["case"], "detail": f["detail"],
+        json.dump({"property": "C10", "kind": f["kind"], "case": f["case"], "detail": (f.get("detail") or "")[:3000],
                    "replay": "vharness aux crashchild -in <file with [case]> (see harness/crash.go)"}, open(p, "w"), indent=1)
         res["violations"].append((p, ""))
+    nrace = 0
+    sigs = set()
+    for r in race.get("map_races") or []:
+        k = known_for(ctx, "\n".join(r.get("frames") or []) + "\n" + r["report"], r["case"].get("sql", ""))
+        if k is not None:
+            seen_known[k["id"]] = k
+            continue
+        nrace += 1
+        sig = tuple(r.get("sig") or [])
+        if sig in sigs or len(res["violations"]) >= 5:
+            continue
+        sigs.add(sig)
+        p = os.path.join(ctx["root"], "replays", "C10-%s-%d-maprace-%d.json" % (ctx["tier"], ctx["seed"], r["case"].get("id", 0)))
+        json.dump({"property": "C10", "kind": "map-race", "case": r["case"], "accesses": r.get("sig"), "frames": r.get("frames"), "detail": r["report"],
+                   "verdict": "two goroutines of the engine access one map without ordering and one of them writes it: on the schedules where the accesses overlap the runtime ends the process with 'fatal error: concurrent map ...'",
+                   "replay": "go build -race -tags verif (harness) ; GORACE=halt_on_error=1 vharness-race aux crashchild -in <file with [case]>"},
+                  open(p, "w"), indent=1)
+        if (p, "") not in res["violations"]:
+            res["violations"].append((p, ""))
+    for k in seen_known.values():
+        res["known"].append("KNOWN-FINDING: property=C10 %s" % k["what"])
+    if race.get("error") or not race.get("ran"):
+        res["broken"] = "stage:crash-isolation race pass did not complete: " + str(race.get("error") or "not run")[:300].replace("\n", " ")
+    res["ok"] = not fails and not nrace and not res.get("broken")
+    res["detail"] = "%d of %d cases crashed, hung or let a panic escape; race pass: %d cases, %d unlisted map races, %d listed as known findings, %d other race reports" % (
+        len(fails), m["cases"], race.get("cases", 0), nrace, len(seen_known), race.get("other_races", 0))
     return res
 
 
@@ -33,6 +91,8 @@ def install(CONFIG, EXTRA_TB, ASSUME):
     c["harness"] = False
     EXTRA_TB.setdefault("C10", []).append(
         "Go runtime facts outside any executable model (goroutine death kills the process, recover semantics, stack/memory limits, scheduling) are observed by the crash-isolation stage, not proved; sqlparser is an oracle (any statement, a syntax error, or an unsupported construct that panics during construction)")
+    EXTRA_TB.setdefault("C10", []).append(
+        "the Go race detector (go build -race) in the race pass of the crash-isolation stage: it sees the unordered accesses of the executions it is shown, not of all executions")
     ASSUME.setdefault("C10", []).extend([
         "partial: real stack depth, memory exhaustion on hostile sizes and OS scheduling are observed in child processes with a 30 s batch timeout, not proved",
         "the structural obligations are syntactic (go/ast); a WaitGroup-only goroutine body is assumed not to panic (each Done is preceded by its Add)"])
